@@ -43,9 +43,20 @@ func oracle(e *env.Env, pol env.PolicyChoice, drr *ae.DataRowRecord, payload []b
 	vx.Reach("C02.oracle_" + tag)
 }
 
+func sfx(e *env.Env) string {
+	if e.Store.Suffix == "" {
+		return ""
+	}
+	return "_" + e.Store.Suffix
+}
+
 // Faults: one encrypt under up to B metastore/KMS faults from each start state, then a fault-free one.
 func Faults() {
 	e := env.New()
+	if vx.Param("suffixed") == 1 {
+		// a region-suffixing metastore (DynamoDB global tables): key ids carry the region, the chain must still close
+		e.Store.Suffix = "us-west-2"
+	}
 	pol := env.Policies[vx.Choice("policy", vx.Param("policies"))]
 	cache := vx.Choice("cache", vx.Param("caches"))
 	f := e.Factory(e.Policy(pol, cache))
@@ -62,10 +73,10 @@ func Faults() {
 	case stExpired:
 		vx.ClockMin(t0 + secs(pol.Expire) + secs(pol.Precision) + 2)
 	case stIKRevoked:
-		e.Store.Latest(env.IKID("p0")).Revoked = true
+		e.Store.Latest(env.IKID("p0") + sfx(e)).Revoked = true
 		vx.ClockMin(t0 + 2*secs(pol.Revoke) + 2)
 	case stSKRevoked:
-		e.Store.Latest(env.SKID()).Revoked = true
+		e.Store.Latest(env.SKID() + sfx(e)).Revoked = true
 		vx.ClockMin(t0 + 2*secs(pol.Revoke) + 2)
 	}
 	vx.Now()
